@@ -44,9 +44,9 @@ func genPlanCase(t *rapid.T, o planGenOpts) planCase {
 }
 
 type planCheckOpts struct {
-	prop            string
-	stored, index   bool
-	dv, thes        bool
+	prop          string
+	stored, index bool
+	dv, thes      bool
 }
 
 func walkPlan(p *spec.MergePlan, f func(*spec.MergePlan)) {
